@@ -5,7 +5,7 @@
    (`events_of`) and the tree BeautifulSoup is expected to build (`toks_of` + xbuild) - these two describe the
    library layers and are validated, not trusted, by the harness.  Definitions only. *)
 From Coq Require Import List ZArith Bool.
-From PV Require Import lib.Sx lib.Str spec.SpecTextXml model.GenText model.TextRead.
+From PV Require Import lib.Sx lib.Str spec.SpecTextXml model.TextRead.
 Import ListNotations.
 Open Scope Z_scope.
 
@@ -16,7 +16,8 @@ Inductive item : Type :=
 | ITxt (cs : list schar)
 | IWrap (n : Z)                       (* source line wrap inside text: a line end (n/100: 0 LF, 1 CRLF, 2 CR)
                                          + (n mod 100) spaces; shows as one space *)
-| IEnt (name : str)                   (* SAMI/HTML: a named reference &name; by its exact (case-sensitive) name *)
+| IEnt (name : str) (c : Z)           (* SAMI/HTML: the named reference &name; (exact, case-sensitive name) for the
+                                         character c - the pair comes from the HTML entity list, not from pycaption *)
 | IBr
 | IOpen (k : Z)
 | IClose (k : Z)
@@ -30,17 +31,12 @@ Definition F_DFXP := 0. Definition F_SAMI := 1. Definition F_VTT := 2. Definitio
 (* ---- what is displayed ------------------------------------------------------------------------- *)
 Definition chars (cs : list schar) : str := map fst cs.
 
-(* HTML named references are case-sensitive: &Eacute; is not &eacute;.  The table is html.entities (+ apos) as
-   generated from the working tree; the lookup is by exact name. *)
-Definition ent_char (n : str) : str :=
-  match assoc_str n sami_name2codepoint with Some v => [v] | None => lit "&" ++ n ++ lit ";" end.
-
 Fixpoint display_aux (items : list item) (cur : str) : list str :=
   match items with
   | [] => [cur]
   | ITxt cs :: t => display_aux t (cur ++ chars cs)
   | IWrap _ :: t => display_aux t (cur ++ [32])
-  | IEnt n :: t => display_aux t (cur ++ ent_char n)
+  | IEnt _ c :: t => display_aux t (cur ++ [c])
   | IBr :: t => cur :: display_aux t []
   | IOpen _ :: t => display_aux t cur
   | IClose _ :: t => display_aux t cur
@@ -123,7 +119,7 @@ Definition ser_item (fmt : Z) (it : item) : str :=
   match it with
   | ITxt cs => spell_all fmt cs
   | IWrap n => if (fmt =? F_DFXP) || (fmt =? F_SAMI) then wrap_text n else [32]
-  | IEnt n => if fmt =? F_SAMI then lit "&" ++ n ++ lit ";" else ent_char n
+  | IEnt n c => if fmt =? F_SAMI then lit "&" ++ n ++ lit ";" else [c]
   | IBr => if fmt =? F_DFXP then lit "<br/>" else if fmt =? F_SAMI then lit "<br>"
            else if fmt =? F_MDVD then lit "|" else [10]
   | IOpen k =>
@@ -160,7 +156,7 @@ Definition ev_of_item (it : item) : list hev :=
   match it with
   | ITxt cs => map ev_of_char cs
   | IWrap n => [EvData (wrap_text n)]
-  | IEnt n => [EvEntity n]
+  | IEnt n _ => [EvEntity n]
   | IBr => [EvStart (lit "br") []]
   | IOpen k => let (n, a) := tag_of F_SAMI k in [EvStart n a]
   | IClose k => [EvEnd (fst (tag_of F_SAMI k))]
@@ -197,7 +193,7 @@ Fixpoint toks_aux (fmt : Z) (items : list item) (cur : str) (out : list xtok) : 
   | [] => rev (flush_text cur out)
   | ITxt cs :: t => toks_aux fmt t (rev (chars cs) ++ cur) out
   | IWrap n :: t => toks_aux fmt t (rev (wrap_text n) ++ cur) out
-  | IEnt n :: t => toks_aux fmt t (rev (ent_char n) ++ cur) out
+  | IEnt _ c :: t => toks_aux fmt t (c :: cur) out
   | IBr :: t => toks_aux fmt t [] (TkEmpty (lit "br") [] :: flush_text cur out)
   | IOpen k :: t => let (n, a) := tag_of fmt k in toks_aux fmt t [] (TkOpen n (lower_attrs a) :: flush_text cur out)
   | IClose k :: t => toks_aux fmt t [] (TkClose (fst (tag_of fmt k)) :: flush_text cur out)
